@@ -38,7 +38,7 @@ class C04(ParseProp):
     rule = ('exhaustive small texts and seeded random texts (<= 24 chars) over an alphabet with filtered-able whitespace, '
             'brackets, multi-byte/wide chars and a scanner-rejected char; plain, counting and modal scanners; 9 filter '
             'predicates; LF/CR/CRLF and several tab widths; the lexer is advanced with next() to exhaustion (+2 extra calls) '
-            'observing token, token_span, parse_span each time, and drained with iter_with_spans (clipped text ranges); plus histories that install another filter mid-stream after deliveries and a look-ahead, then drain; '
+            'observing token, token_span, parse_span each time, and drained with iter_with_spans (clipped text ranges); plus histories that install another filter mid-stream after deliveries and a look-ahead, then drain, and histories that start a new parse with start_sublex / into_sublexer with and without a look-ahead buffered; '
             'non-trivial = >= 3 tokens and (a filter that removes something or a rejected char); distinct by case')
     assumptions = ['scanners are the three harness scanners; metrics configured before the filter (builder order is C03)']
 
@@ -75,6 +75,16 @@ class C04(ParseProp):
             n += 1
             out.append(parsegen.lex_case('c%d' % n, r.choice(['plain', 'counting', 'modal']), t,
                                          [['metrics', r.choice(['lf', 'crlf']), 4], ['filter', r.choice(FILTERS[1:])]], ops))
+        # a new parse started by a sub-lex mark, with and without a look-ahead buffered: the parse span of the new parse runs
+        # from the start of ITS first delivered token
+        for i in range(300 if tier == 'quick' else 3000):
+            t = spangen.random_text(r, ['a', 'b', 'sp', 'sp', 'comma', 'TAB', 'LF'], 14)
+            ops = ['next'] * r.below(3) + (['peek'] if r.chance(2, 3) else []) + [r.choice(['sublex', 'intosub'])] + ['next'] * (1 + r.below(3))
+            if r.chance(1, 3):
+                ops += ['peek', r.choice(['sublex', 'intosub']), 'next', 'next']
+            n += 1
+            out.append(parsegen.lex_case('c%d' % n, r.choice(['plain', 'counting', 'modal']), t,
+                                         [['metrics', r.choice(['lf', 'crlf']), 4], ['filter', r.choice(FILTERS[1:5])]], ops))
         return out
 
     def nontrivial(self, ct, it):
@@ -112,6 +122,8 @@ class C04(ParseProp):
                 want = '-' if t is None else t['tok']
                 if o['res'] != want:
                     fails.append(((ei,), 'peek %d: got %s, sequential scan with the filter gives %s' % (ei - 1, o['res'], want))); break
+            elif o['name'] in ('sublex', 'intosub'):
+                first_start = None           # a new parse starts here
             elif o['name'] == 'setfilter':
                 if ref.first() is None and ref.i < len(toks):
                     break          # nothing deliverable under the old filter: the lexer has scanned to the end (C05's domain)
